@@ -50,7 +50,14 @@ pub fn case() -> impl Strategy<Value = Case> {
 
 pub fn check_trait<S: Attack>(c: &Case, ctx: &mut CaseCtx) -> Result<(), Failure> {
     let tier = current_tier();
-    let Ok(sess) = Session::<S>::build(&c.scn, tier) else {
+    // the prover-built forgeries work on polynomials without degree bounds: strip them for that mode
+    let mut scn_forge = c.scn.clone();
+    if c.mode == 5 {
+        for p in scn_forge.polys.iter_mut() {
+            p.bound = 0;
+        }
+    }
+    let Ok(sess) = Session::<S>::build(&scn_forge, tier) else {
         ctx.label("build_failed(C01)");
         return Ok(());
     };
